@@ -502,6 +502,14 @@ func (g *Gen) genCreateBatch() *eng.Tx {
 	if g.chance(0.35) {
 		m.OriginTx = g.originTx(c.Id, false)
 	}
+	if g.chance(0.1) {
+		// signed by the PROJECT admin (who may or may not be a class issuer — the role that counts), with
+		// an origin transaction as a bridge service would send it
+		m.Issuer = obs.Addr(p.Admin)
+		if m.OriginTx == nil {
+			m.OriginTx = g.originTx(c.Id, false)
+		}
+	}
 	return tx(m)
 }
 
